@@ -1,5 +1,6 @@
 import PedVerif.Lemmas.CallLayer3
 import PedVerif.Lemmas.CheckerEnvs
+import PedVerif.Props.GenWrap
 /-!
 # C03 — @pedantic guards the body: bad arguments never reach it, bad results never leave
 
